@@ -69,6 +69,72 @@ class Prop:
         return 0, 0, {}
 
 
+# ---- watchdog: a case whose calls never return must end as a reported violation, not as a hung check --------------------
+class _Watchdog(BaseException):
+    """raised in the main thread when a case has run for too long (BaseException: the harness's own `except Exception`
+    outcome recorders must not swallow it)"""
+
+
+_WD = {"limit": float(os.environ.get("EDGEGRAPH_WATCHDOG", "120")), "fired": 0, "slowest": 0.0}
+TIMEOUT = "__did_not_return__"
+
+
+def _observe(leg, case):
+    """leg.observe(case) under a wall-clock limit (generated cases take milliseconds; the limit is 120 s, 10 s once a case of
+    this run has already hit it).  Returns {TIMEOUT: seconds} when the limit is reached."""
+    import signal
+    import threading
+    if threading.current_thread() is not threading.main_thread():
+        return leg.observe(case)
+    limit = _WD["limit"] if not _WD["fired"] else min(_WD["limit"], 10.0)
+
+    def fire(*_a):
+        raise _Watchdog()
+    old = signal.signal(signal.SIGUSR1, fire)
+    main_id = threading.main_thread().ident
+    timer = threading.Timer(limit, lambda: signal.pthread_kill(main_id, signal.SIGUSR1))
+    timer.daemon = True
+    timer.start()
+    import time
+    t0 = time.time()
+    try:
+        return leg.observe(case)
+    except _Watchdog:
+        _WD["fired"] += 1
+        return {TIMEOUT: limit}
+    finally:
+        timer.cancel()
+        signal.signal(signal.SIGUSR1, old)
+        _WD["slowest"] = max(_WD["slowest"], time.time() - t0)
+
+
+def _timed_out(obs):
+    return isinstance(obs, dict) and TIMEOUT in obs
+
+
+def _oracle(leg, case, obs):
+    if _timed_out(obs):
+        return [f"the calls of this case did not return within {obs[TIMEOUT]:.0f} s (cases of this leg take milliseconds)"]
+    return leg.oracle(case, obs)
+
+
+def _term(leg, case, obs):
+    return None if _timed_out(obs) else leg.term(case, obs)
+
+
+def _nontrivial(leg, case, obs):
+    return True if _timed_out(obs) else leg.nontrivial(case, obs)
+
+
+def _stats(leg, case, obs, acc):
+    if not _timed_out(obs):
+        leg.stats(case, obs, acc)
+
+
+def _model_value(leg, case, obs):
+    return None if _timed_out(obs) else leg.model_value(case, obs)
+
+
 def _shrink(leg, case, still_fails, budget=400):
     """Greedy delta-debugging using leg.shrink_candidates."""
     cur = case
@@ -91,8 +157,8 @@ def _shrink(leg, case, still_fails, budget=400):
 
 
 def _oracle_fails(leg, case):
-    obs = leg.observe(case)
-    return bool(leg.oracle(case, obs))
+    obs = _observe(leg, case)
+    return bool(_oracle(leg, case, obs))
 
 
 def _match_known(pid, leg, case, msgs):
@@ -192,10 +258,15 @@ def run_check(prop, tier):
         acc = {}
         terms, tidx = [], []
         for ci, case in enumerate(cases):
+            if _WD["fired"] >= 2:
+                # two cases of this run never returned: every further one may cost the full limit again.  Stop here -
+                # the two are reported below, with what was evaluated before them
+                cov["stopped_after_calls_that_did_not_return"] = _WD["fired"]
+                break
             try:
-                obs = leg.observe(case)
-                msgs = leg.oracle(case, obs)
-                t = leg.term(case, obs)
+                obs = _observe(leg, case)
+                msgs = _oracle(leg, case, obs)
+                t = _term(leg, case, obs)
             except Exception as e:  # the implementation behaved in a way the harness cannot even observe
                 harness_errors += 1
                 if harness_errors == 1:
@@ -205,10 +276,10 @@ def run_check(prop, tier):
             total_eval += 1
             if msgs:
                 oracle_fails.append((leg, case, msgs))
-            if leg.nontrivial(case, obs):
+            if _nontrivial(leg, case, obs):
                 distinct.add(leg.name + C.canon(leg.describe(case)))
-            leg.stats(case, obs, acc)
-            if len(samples) < 3 * (li + 1) and ci >= ncorpus and leg.nontrivial(case, obs):
+            _stats(leg, case, obs, acc)
+            if len(samples) < 3 * (li + 1) and ci >= ncorpus and _nontrivial(leg, case, obs):
                 samples.append({"leg": leg.name, "case": leg.describe(case), "observed": obs})
             if t is None:
                 outside += 1
@@ -229,13 +300,14 @@ def run_check(prop, tier):
     # ---- verdict -----------------------------------------------------------------------------
     seen_keys = set()
     for leg, case, msgs in oracle_fails:
-        small = _shrink(leg, case, lambda c, leg=leg: _oracle_fails(leg, c))
+        hung = any("did not return within" in m for m in msgs)      # each shrinking step may cost the whole limit
+        small = _shrink(leg, case, lambda c, leg=leg: _oracle_fails(leg, c), budget=10 if hung else 400)
         key = C.canon(leg.describe(small))
         if key in seen_keys:
             continue
         seen_keys.add(key)
-        obs = leg.observe(small)
-        msgs2 = leg.oracle(small, obs) or msgs
+        obs = _observe(leg, small)
+        msgs2 = _oracle(leg, small, obs) or msgs
         kf = _match_known(pid, leg, small, msgs2)
         if kf:
             known_hits.append(f"KNOWN-FINDING: property={pid} {kf.get('what', msgs2[0])}")
@@ -258,8 +330,8 @@ def run_check(prop, tier):
                 continue
             for case in leg.generate(rng, n):
                 searched += 1
-                obs = leg.observe(case)
-                msgs = leg.oracle(case, obs)
+                obs = _observe(leg, case)
+                msgs = _oracle(leg, case, obs)
                 if msgs and not _match_known(pid, leg, case, msgs):
                     found = (leg, case, msgs)
                     break
@@ -269,9 +341,9 @@ def run_check(prop, tier):
         if found:
             leg, case, msgs = found
             small = _shrink(leg, case, lambda c, leg=leg: _oracle_fails(leg, c))
-            obs = leg.observe(small)
+            obs = _observe(leg, small)
             rp = C.write_replay(pid, seed, {"kind": "oracle", "leg": leg.name, "case": small, "observed": obs,
-                                            "messages": leg.oracle(small, obs) or msgs})
+                                            "messages": _oracle(leg, small, obs) or msgs})
             violations.append(("oracle", rp, ""))
         else:
             payload = {"kind": "tie" if tie_breaks else "proof", "no_failing_input_found": True,
@@ -280,18 +352,18 @@ def run_check(prop, tier):
                 leg, case, obs = tie_breaks[0]
 
                 def tie_fails(c, leg=leg):
-                    o = leg.observe(c)
-                    t = leg.term(c, o)
+                    o = _observe(leg, c)
+                    t = _term(leg, c, o)
                     if t is None:
                         return False
                     b, e = C.run_cases(pid, leg.imports, leg.checkfn, [t], tag="shrink", case_type=leg.case_type)
                     return bool(b) and not e
                 small = _shrink(leg, case, tie_fails, budget=40)
-                sobs = leg.observe(small)
+                sobs = _observe(leg, small)
                 payload.update({"leg": leg.name, "case": small, "observed": sobs,
                                 "correspondence": f"{leg.checkfn} (coq/{leg.imports.split()[-1].rstrip('.')}.v) vs /repo on leg {leg.name}",
                                 "disagreeing_cases": len(tie_breaks)})
-                mv = leg.model_value(small, sobs)
+                mv = _model_value(leg, small, sobs)
                 if mv:
                     payload["model_says"] = C.eval_term(pid, leg.imports, mv)[-3000:]
             rp = C.write_replay(pid, seed, payload)
@@ -303,7 +375,8 @@ def run_check(prop, tier):
                 "known_findings_hit": len(known_hits), "legs": legs_info,
                 "exhaustive": all(l.exhaustive for l in prop.legs) if prop.legs else False,
                 "rule": " | ".join(f"{l.name}: {l.rule}" for l in prop.legs),
-                "proof_problems": proof_problems})
+                "proof_problems": proof_problems,
+                "slowest_case_seconds": round(_WD["slowest"], 2), "per_case_time_limit_seconds": _WD["limit"]})
     n_obl, n_dis = cov["obligations"], cov["discharged"]
     if cov["obligations"] < 1 or cov["discharged"] < 1:
         # nothing was discharged on this run (broken build / missing theorem file): do not present
@@ -334,8 +407,8 @@ def run_replay(props, path):
         return 1
     leg = [l for l in prop.legs if l.name == data["leg"]][0]
     case = data["case"]
-    obs = leg.observe(case)
-    msgs = leg.oracle(case, obs)
+    obs = _observe(leg, case)
+    msgs = _oracle(leg, case, obs)
     print(f"[{pid}] replay leg={leg.name} case={json.dumps(leg.describe(case))}")
     print(f"[{pid}] implementation now observed: {json.dumps(obs)}")
     if data.get("observed") is not None and C.canon(data["observed"]) != C.canon(obs):
@@ -345,7 +418,7 @@ def run_replay(props, path):
         for m in msgs:
             print(f"[{pid}] property fails on the implementation: {m}")
         rc = 1
-    t = leg.term(case, obs)
+    t = _term(leg, case, obs)
     if t is not None:
         C.build()
         bad, err = C.run_cases(pid, leg.imports, leg.checkfn, [t], tag="replay", case_type=leg.case_type)
@@ -353,7 +426,7 @@ def run_replay(props, path):
             print(f"[{pid}] model evaluation error: {err}")
             rc = 1
         elif bad:
-            mv = leg.model_value(case, obs)
+            mv = _model_value(leg, case, obs)
             print(f"[{pid}] model and implementation disagree on this case" + (": model says " + C.eval_term(pid, leg.imports, mv) if mv else ""))
             rc = 1
         else:
